@@ -143,7 +143,7 @@ def g_chip(rng, n, allow_link=True):
 
 
 def g_zone(rng, n):
-    ntrip = rng.choice([0, 1, 2, 2, 3, 4, 5, 6])
+    ntrip = rng.choice([0, 1, 2, 2, 3, 4, 5, 6, 11, 12, 14])        # (ACPI zones may carry a dozen trip points: two-digit indexes)
     types = []
     pool = list(TRIP_TYPES)
     for _ in range(ntrip):
